@@ -70,6 +70,7 @@ pub fn generate(thorough: bool, seed: u64, em: &mut Emitter) {
             if no_alg {
                 case["tag"] = json!("no_sd_alg");
             }
+            super::present::decorate_session(r, &mut case);
             em.case("present", case);
         }
     }
